@@ -32,6 +32,14 @@ TLoad == /\ IsEvent("Load")
               /\ topo' = [topo EXCEPT ![e.s] = e.P]
          /\ UNCHANGED dif
 
+\* end of the set-up of a topology (made of unlogged edits): its projection is adopted
+TSnap == /\ IsEvent("Snap")
+         /\ LET e == T[l] IN
+              /\ e.s \in 1..NT
+              /\ WF(e.P) /\ NObj(e.P) > 0
+              /\ topo' = [topo EXCEPT ![e.s] = e.P]
+         /\ UNCHANGED dif
+
 TDup == /\ IsEvent("Dup")
         /\ LET e == T[l] IN
              /\ e.ret = 0 /\ e.dst \in 1..NT /\ e.src \in 1..NT
@@ -102,7 +110,7 @@ TFree == /\ IsEvent("Free")
          /\ dif' = [dif EXCEPT ![T[l].dd] = NoD]
          /\ UNCHANGED topo
 
-Next == TReset \/ TLoad \/ TDup \/ TEdit \/ TBuild \/ TMk \/ TApply \/ TXml \/ TFree
+Next == TReset \/ TLoad \/ TSnap \/ TDup \/ TEdit \/ TBuild \/ TMk \/ TApply \/ TXml \/ TFree
 Spec == Init /\ [][Next]_<<l, topo, dif>>
 
 Accepted == TLCGet("stats").diameter - 1 = Len(T)
